@@ -35,7 +35,7 @@ class BestSizes(Contract):
                         if len(shape) and shape[0] > 1 and f > 2:
                             continue
                         yield dict(signed=signed, f=f, shape=shape, case=case, bits=bits if not shape or shape[0] == 1 else min(bits, 6))
-        for signed in (True, False):
+        for signed in (None, True, False):
             for case in ('int_frac_given', 'int_word_given'):
                 yield dict(signed=signed, f=3, shape=[], case=case, bits=6)
 
